@@ -216,8 +216,9 @@ def run(ctx):
         jobs.append(("dev-" + d, lambda d=d: dev(d)))
     # 3a. behaviour generation: two small universes in the quick tier (2 trees x 1 change x 1 ACL record: creation,
     #     deferred creation, ACL, delete; 1 tree x 2 changes: batches, snapshots, reduction, rebuild), one larger
-    #     universe in the thorough tier
-    gens = [("PersistGen_t.cfg", "t")] if thorough else [("PersistGen_q.cfg", "q"), ("PersistGen_q2.cfg", "q2")]
+    #     universe (2 trees x 2 changes) and the 1-tree universe with two faults per behaviour in the thorough tier
+    gens = ([("PersistGen_t.cfg", "t"), ("PersistGen_f2.cfg", "f2")] if thorough
+            else [("PersistGen_q.cfg", "q"), ("PersistGen_q2.cfg", "q2")])
     for cfg, tag in gens:
         d = os.path.join(emit, tag)
         os.makedirs(d)
@@ -248,7 +249,7 @@ def run(ctx):
             raise broken("no behaviours emitted (%s)" % tag)
         total += n
         dirs.append(d)
-        limits.append(str(6000 if thorough else (250 if tag == "q" else 200)))
+        limits.append(str({"t": 5000, "f2": 2000, "q": 250, "q2": 200}[tag]))
     ctx.go_test("./persist", run="TestReplay$", timeout=4000,
                 env={"VERIF_BEHAVIOURS": os.pathsep.join(dirs), "VERIF_WORKERS": workers,
                      "VERIF_MAX_BEHAVIOURS": os.pathsep.join(limits)})
